@@ -12,6 +12,7 @@ pub fn run(ctx: &mut Ctx) {
         std_triple: false,
         canon: true,
         record_canon: false,
+        keep_ptrs: false,
     };
     // short histories with tiny tables (growth every few inserts, constant eviction)
     for case in ctx.cases("rand", 2000, true) {
